@@ -13,8 +13,10 @@ from hgv.worker import HarnessError
 ID = "C06"
 RULE = ("A random dataflow program P (sources, stateless/stateful compute nodes, structural sources, inlined/nested sub-programs, "
         "delayed bindings) is wired in 2-3 random admissible statement orders; additionally one compute statement is duplicated "
-        "(same definition, same inputs, same configuration scalar: eligible for sharing) and near-duplicated (one scalar, one input "
-        "or the function changed), each once as intern-eligible and once forced unique, and one sink is duplicated. Non-trivial = "
+        "(same definition, same inputs, same configuration scalar: eligible for sharing) and near-duplicated (one scalar, one input, "
+        "one input tagged passive, or the function changed), each once as intern-eligible and once forced unique, and one sink is "
+        "duplicated; in a third of the cases two identical nodes read two equal-typed projections of one bundle/list argument inside a "
+        "sub-program that is applied inlined and nested, in both twin orders. Non-trivial = "
         "the program has >= 2 statements whose relative order differs between the permutations AND a near-colliding pair. "
         "Distinct = canonical JSON of the case.")
 ASSUMPTIONS = ["configuration of harness nodes is carried in one string scalar, so scalar *type* collisions (1 vs true) are not exercised"]
